@@ -173,6 +173,28 @@ CHECKS = {
     note="Mutations are sampled with a stride in the quick tier; survivors judged by the reference codec are budgeted.",
     technique="mutation exploration judged by TLC trace validation against the stream contract + TLA+ reference decoding of survivors",
     design="4 C08"),
+ "C11": dict(
+    level="fault_enumeration",
+    text="MailboxFS.tla describes every store operation as file-system steps with a Crash between any two steps and inside a write; TLC "
+         "shows the recovery invariants (folders load, dedup sound, older messages intact) hold for write-temp-then-rename and fail "
+         "for write-in-place. Binding: each mutating call is recorded under strace in a child; for every recorded call index (killed "
+         "before it) and every prefix length of every write (torn) the state is materialised on a copy of the pre-state and the real "
+         "recovery code runs on it; MailboxFSTrace.tla judges: every folder lists, older messages intact, out xor sent, 'already "
+         "received' only for a complete copy.",
+    note="Crash states are materialised from the recorded syscall sequence (full replay is checked to reproduce the real result), not "
+         "by killing the process at each point. A crash is a process kill: no fsync / write reordering model.",
+    technique="TLA+ crash-point model + strace-recorded syscall enumeration of real operations, recovery judged by TLC",
+    design="4 C11"),
+ "C12": dict(
+    level="exploration",
+    text="MailboxFS.tla models remote-chosen identifiers as path-segment sequences and the lexical resolution of <folder>/<MID>.b2f; TLC "
+         "enumerates all MIDs up to four segments with their Confined flag and checks that single-segment MIDs are always confined. "
+         "Every MID plus specials (absolute, NUL, very long, non-ASCII, backslash, seeded) is used in ProcessInbound (Mid header), "
+         "GetInboundAnswer, SetDeferred and SetSent on a real DirHandler in a sandbox tree with bait files; an exact before/after "
+         "snapshot (path, size, mtime, inode, SHA-1) is judged by MailboxFSTrace.tla: nothing outside the mailbox changes.",
+    note="Exact oracle (file-system snapshot) on model-generated inputs; SetSent runs in a child process because it may log.Fatalf.",
+    technique="TLA+ path-resolution model generates identifiers; real calls judged by file-system snapshots via TLC trace validation",
+    design="4 C12"),
 }
 
 NOT_YET = "check not built yet (work in progress; see DESIGN.md section 8 for the build order)"
